@@ -16,10 +16,12 @@ import (
 )
 
 type opNode struct {
-	kind byte // 'a' atom, 'p' paren, 'u' prefix, 'b' binary, 'i' IS
+	kind byte // 'a' atom, 'p' paren, 'u' prefix, 'b' binary, 'i' IS, 'n' NOT LIKE, 'w' BETWEEN, 'l' IN list, 'f' call, 'c' cursor status, 't' cursor attribute
 	word string
 	neg  bool
 	l, r *opNode
+	m    *opNode   // lower bound of BETWEEN
+	args []*opNode // IN list, call arguments
 }
 
 var opBin = []string{"OR", "AND", "=", "==", "<", "<=", ">", ">=", "<>", "!=", "LIKE", "||", "+", "-", "*", "/", "%"}
@@ -33,7 +35,34 @@ func genOpTree(g *hc.Gen, d int) *opNode {
 		}
 		return &opNode{kind: 'a', word: fmt.Sprintf("x%d", g.Intn(10))}
 	}
-	switch g.Intn(10) {
+	switch g.Intn(16) {
+	case 10:
+		return &opNode{kind: 'n', word: "LIKE", l: genOpTree(g, d-1), r: genOpTree(g, d-1)}
+	case 11:
+		return &opNode{kind: 'w', neg: g.Intn(2) == 0, l: genOpTree(g, d-1), m: genOpTree(g, d-1), r: genOpTree(g, d-1)}
+	case 12:
+		n := &opNode{kind: 'l', neg: g.Intn(2) == 0, l: genOpTree(g, d-1)}
+		for k := 1 + g.Intn(3); k > 0; k-- {
+			n.args = append(n.args, genOpTree(g, d-2))
+		}
+		return n
+	case 13:
+		n := &opNode{kind: 'f', word: fmt.Sprintf("x%d", g.Intn(10))}
+		for k := g.Intn(4); k > 0; k-- {
+			n.args = append(n.args, genOpTree(g, d-2))
+		}
+		return n
+	case 14:
+		if g.Intn(4) == 0 {
+			return &opNode{kind: 't', word: fmt.Sprintf("x%d", g.Intn(10))}
+		}
+		cs := &opNode{kind: 'c', word: fmt.Sprintf("x%d", g.Intn(10)), neg: g.Intn(2) == 0}
+		if g.Intn(2) == 0 {
+			cs.r = &opNode{} // IN RANGE
+		}
+		return cs
+	case 15:
+		return &opNode{kind: 'b', word: g.Pick("AND", "OR", "=", "LIKE"), l: genOpTree(g, d-1), r: genOpTree(g, d-1)}
 	case 0, 1:
 		return &opNode{kind: 'p', l: genOpTree(g, d-1)}
 	case 2, 3:
@@ -59,6 +88,45 @@ func (n *opNode) words() []string {
 			w = append(w, "NOT")
 		}
 		return append(w, n.word)
+	case 'n':
+		return append(append(n.l.words(), "NOT", n.word), n.r.words()...)
+	case 'w':
+		w := n.l.words()
+		if n.neg {
+			w = append(w, "NOT")
+		}
+		w = append(append(w, "BETWEEN"), n.m.words()...)
+		return append(append(w, "AND"), n.r.words()...)
+	case 'l', 'f':
+		var w []string
+		if n.kind == 'l' {
+			w = n.l.words()
+			if n.neg {
+				w = append(w, "NOT")
+			}
+			w = append(w, "IN")
+		} else {
+			w = []string{n.word}
+		}
+		w = append(w, "(")
+		for i, a := range n.args {
+			if i > 0 {
+				w = append(w, ",")
+			}
+			w = append(w, a.words()...)
+		}
+		return append(w, ")")
+	case 'c':
+		w := []string{"CURSOR", n.word, "IS"}
+		if n.neg {
+			w = append(w, "NOT")
+		}
+		if n.r != nil {
+			return append(w, "IN", "RANGE")
+		}
+		return append(w, "OPEN")
+	case 't':
+		return []string{"CURSOR", n.word, "COUNT"}
 	}
 	return append(append(n.l.words(), n.word), n.r.words()...)
 }
@@ -67,15 +135,13 @@ func isOperandEnd(w string) bool {
 	return w == ")" || w[0] == 'x' || w[0] >= '0' && w[0] <= '9' || w == "NULL" || w == "TRUE" || w == "FALSE" || w == "UNKNOWN"
 }
 
-// outside the modelled fragment: NOT after an operand (NOT LIKE / NOT IN / NOT BETWEEN)
+// every word list over the vocabulary is inside the modelled fragment since wave 17 (NOT LIKE / [NOT] IN / [NOT] BETWEEN,
+// calls, cursor status)
 func opxInFragment(ws []string) bool {
-	for i := 1; i < len(ws); i++ {
-		if ws[i] == "NOT" && isOperandEnd(ws[i-1]) && !(i >= 1 && ws[i-1] == "IS") {
-			return false
-		}
-	}
 	return true
 }
+
+var _ = isOperandEnd
 
 func shapeOf(e parser.QueryExpression) (string, bool) {
 	two := func(op string, l, r parser.QueryExpression) (string, bool) {
@@ -109,9 +175,60 @@ func shapeOf(e parser.QueryExpression) (string, bool) {
 		return two(strings.ToUpper(x.Operator.Literal), x.LHS, x.RHS)
 	case parser.Like:
 		if x.IsNegated() {
-			return "", false
+			return two("NOTLIKE", x.LHS, x.Pattern)
 		}
 		return two("LIKE", x.LHS, x.Pattern)
+	case parser.Between:
+		a, ok1 := shapeOf(x.LHS)
+		b, ok2 := shapeOf(x.Low)
+		c, ok3 := shapeOf(x.High)
+		op := "BTW"
+		if x.IsNegated() {
+			op = "NOTBTW"
+		}
+		return op + "[" + a + "," + b + "," + c + "]", ok1 && ok2 && ok3
+	case parser.In:
+		rv, isRow := x.Values.(parser.RowValue)
+		if !isRow {
+			return "", false
+		}
+		vl, isList := rv.Value.(parser.ValueList)
+		if !isList {
+			return "", false
+		}
+		a, ok := shapeOf(x.LHS)
+		l, ok2 := shapeList(vl.Values)
+		op := "IN"
+		if x.IsNegated() {
+			op = "NOTIN"
+		}
+		return op + "[" + a + "," + l + "]", ok && ok2
+	case parser.Function:
+		if !x.From.IsEmpty() || !x.For.IsEmpty() || len(x.Name) == 0 || (x.Name[0] != 'x' && x.Name[0] != 'X') {
+			return "", false
+		}
+		l, ok := shapeList(x.Args)
+		return "CALL[" + strings.ToLower(x.Name) + "," + l + "]", ok
+	case parser.CursorStatus:
+		if x.Cursor.Quoted {
+			return "", false
+		}
+		s := "CS[" + x.Cursor.Literal
+		if !x.Negation.IsEmpty() {
+			s += ",NOT"
+		}
+		switch x.Type.Token {
+		case parser.OPEN:
+			return s + ",OPEN]", true
+		case parser.RANGE:
+			return s + ",RANGE]", true
+		}
+		return "", false
+	case parser.CursorAttrebute:
+		if x.Cursor.Quoted || x.Attrebute.Token != parser.COUNT {
+			return "", false
+		}
+		return "CA[" + x.Cursor.Literal + "]", true
 	case parser.Concat:
 		// the semantic action flattens `a || b || c`; the grammar's tree is left-nested
 		if len(x.Items) < 2 {
@@ -143,6 +260,16 @@ func shapeOf(e parser.QueryExpression) (string, bool) {
 		return "IS[" + s + "," + rhs + "]", ok
 	}
 	return "", false
+}
+
+func shapeList(es []parser.QueryExpression) (string, bool) {
+	ok := true
+	parts := make([]string, len(es))
+	for i, e := range es {
+		s, k := shapeOf(e)
+		parts[i], ok = s, ok && k
+	}
+	return "(" + strings.Join(parts, ";") + ")", ok
 }
 
 // opxImpl: parse `SELECT <words>` with the real parser; shape of the field and the tokens of its String()
@@ -196,6 +323,17 @@ var opxWitnesses = []string{
 	"x1 OR x2 AND x3", "x1 AND x2 OR x3", "x1 = x2 AND x3 = x4", "x1 = x2 = x3", "x1 < x2 LIKE x3", "( x1 = x2 ) = x3", "x1 = ( x2 = x3 )",
 	"x1 IS NULL", "x1 IS NOT NULL", "x1 IS TRUE", "x1 IS NOT UNKNOWN", "x1 = x2 IS NULL", "x1 IS NULL = x2", "x1 IS NULL IS NOT NULL", "x1 + x2 IS NULL",
 	"x1 OR x2 IS NULL", "NOT x1 IS NULL", "- x1 IS NULL", "x1 LIKE x2 || x3", "x1 LIKE x2 LIKE x3", "x1 <> x2 + 1", "x1 % 2 == 0",
+	"x1 BETWEEN x2 AND x3", "x1 NOT BETWEEN x2 AND x3", "x1 BETWEEN x2 AND x3 AND x4", "x1 BETWEEN x2 AND x3 OR x4", "x1 BETWEEN x2 OR x3 AND x4",
+	"x1 BETWEEN x2 AND x3 + x4", "x1 BETWEEN x2 AND x3 = x4", "x1 BETWEEN x2 + 1 AND x3", "x1 BETWEEN x2 = x3 AND x4", "x1 BETWEEN NOT x2 AND x3",
+	"x1 BETWEEN x2 AND x3 BETWEEN x4 AND x5", "x1 BETWEEN x2 BETWEEN x3 AND x4 AND x5", "x1 = x2 BETWEEN x3 AND x4", "x1 + x2 BETWEEN x3 AND x4",
+	"x0 AND x1 BETWEEN x2 AND x3", "NOT x1 BETWEEN x2 AND x3", "x1 BETWEEN x2 AND NOT x3", "x1 BETWEEN x2 AND x3 IS NULL", "x1 IS NULL BETWEEN x2 AND x3",
+	"x1 BETWEEN ( x2 AND x3 ) AND x4", "x1 BETWEEN x2 AND x3 AND x4 BETWEEN x5 AND x6", "x1 BETWEEN x2 AND x3 NOT LIKE x4", "x1 BETWEEN x2", "x1 BETWEEN x2 AND",
+	"x1 = x2 NOT LIKE x3", "x1 = x2 LIKE x3", "x1 AND x2 NOT IN ( x3 )", "NOT x1 NOT LIKE x2", "- x1 NOT LIKE x2", "x1 NOT LIKE x2 NOT LIKE x3", "x1 NOT LIKE x2 LIKE x3",
+	"x1 LIKE x2 NOT LIKE x3", "x1 NOT LIKE x2 = x3", "x1 || x2 NOT LIKE x3 || x4", "x1 NOT x2", "x1 NOT = x2", "x1 NOT", "x1 NOT NOT LIKE x2",
+	"x1 IN ( x2 ) + x3", "x1 = x2 IN ( x3 )", "x1 IN ( x2 ) IN ( x3 )", "x1 IN ( x2 , x3 ) IS NULL", "x1 NOT IN ( x2 ) = x3", "x1 IN ( )", "x1 IN x2", "x1 IN ( x2 ,  )",
+	"x1 IN ( x2 , 3 , x4 + 1 )", "x1 ( x2 )", "x1 ( )", "x1 ( x2 , 3 ) + 1", "1 ( x2 )", "x1 ( x2 ( x3 ) , ( x4 ) )", "x1 ( x2", "x1 ( , )", "- x1 ( 2 ) * 3",
+	"CURSOR x1 IS OPEN", "CURSOR x1 IS NOT OPEN", "CURSOR x1 IS IN RANGE", "CURSOR x1 IS NOT IN RANGE", "CURSOR x1 COUNT", "CURSOR x1 IS NOT OPEN AND x2",
+	"CURSOR x1 IS IN RANGE = x2", "CURSOR x1 COUNT + 1", "CURSOR 1 IS OPEN", "CURSOR x1 IS", "CURSOR x1 IS NOT", "CURSOR x1 IS RANGE", "NOT CURSOR x1 IS OPEN",
 	"( x1", "x1 )", "x1 +", "+ ", "x1 x2", "x1 IS x2", "x1 IS NOT", "( )", "x1 ! x2", "NOT", "x1 AND", "* x1", "x1 = = x2",
 }
 
@@ -233,7 +371,7 @@ func genOpxWords(g *hc.Gen) []string {
 			j := g.Intn(len(ws))
 			ws[i], ws[j] = ws[j], ws[i]
 		case 3:
-			ins := g.Pick("(", ")", "IS", "NULL", "x7", "+", "=", "AND", "!", "-")
+			ins := g.Pick("(", ")", "IS", "NULL", "x7", "+", "=", "AND", "!", "-", "NOT", "BETWEEN", "IN", "LIKE", ",", "CURSOR", "OPEN", "RANGE")
 			ws = append(ws[:i:i], append([]string{ins}, ws[i:]...)...)
 		}
 	}
